@@ -176,22 +176,38 @@ class Ctor(Base):
         self.m_off = deserialization_method(self.prog.tp)
         settings.deserialization.override_dataclass_constructors = True
         self.m_on = deserialization_method(self.prog.tp)
+        self.m_on_copy = deserialization_method(self.prog.tp, no_copy=False)
+        self.m_on_nocopy = deserialization_method(self.prog.tp, no_copy=True)
         settings.deserialization.override_dataclass_constructors = False
         self.VE = ValidationError
         self.opts = ref_opts(job)
         self.bounds = bounds_of(job)
-        self.functions = sorted(set(method_classes(self_of(self.m_off)) + method_classes(self_of(self.m_on))))
+        self.functions = sorted(set(method_classes(self_of(self.m_off)) + method_classes(self_of(self.m_on)) + method_classes(self_of(self.m_on_copy))))
         self.expect_tags = ["ok"]
 
     def body(self, ctx: Ctx):
         d = Gen(ctx, self.prog, self.bounds, self.opts).json(self.prog.spec)
         ctx.witness = d
+        snap = snapshot(d)
         ctx.run_phase()
         a = self.outcome(self.m_off, d)
         b = self.outcome(self.m_on, d)
         ctx.notes["tag:" + a[0]] = True
+        if snapshot(d) != snap:
+            return Failure("input-modified(override_dataclass_constructors)", witness=d)
         if not self.same_outcome(a, b):
             return Failure("override_dataclass_constructors-changes-result", witness=d, extra={"off": a, "on": b})
+        # the purity / sharing clauses hold with the overridden constructors too
+        c = self.outcome(self.m_on_nocopy, d)
+        if snapshot(d) != snap:
+            return Failure("input-modified(override_dataclass_constructors, no_copy=True)", witness=d)
+        e = self.outcome(self.m_on_copy, d)
+        if snapshot(d) != snap:
+            return Failure("input-modified(override_dataclass_constructors, no_copy=False)", witness=d)
+        if not self.same_outcome(a, c) or not self.same_outcome(a, e):
+            return Failure("override_dataclass_constructors-changes-result", witness=d, extra={"off": a, "on,no_copy": c, "on,copy": e})
+        if e[0] == "ok" and set(containers(e[1])) & set(containers(d)):
+            return Failure("shares-container-with-input(override_dataclass_constructors, no_copy=False)", witness=d, extra={"result": e[1]})
         return None
 
 
